@@ -121,8 +121,10 @@
     * instantiating a library exception class gives `excInst` of its name, the arguments evaluated and dropped: the constructors
       of `exceptions.py` are taken to return normally;
     * `Val.pairs`: a Python list of 2-tuples of model values (the attribute list of `handle_starttag`); `for (a, b) in x`
-      (`Stmt.forPair`) over a VARIABLE holding one binds both names per item and checks after every iteration that the variable
-      still holds the list; a plain `for` over it yields the 2-tuples;
+      (`Stmt.forPair`) binds both names per item and checks after every iteration that the iterable, evaluated again, still is
+      that list (a variable holding it; `d.items()` of a dict in a field: the pairs of the dict); a plain `for` over it yields the
+      2-tuples;
+    * `'literal' % (a, b)` / `'literal' % a` (`Expr.format`) with `%s` directives only: `pyFormat` (`str()` of each argument);
     * `return Base.m(self, args)` (`Stmt.retBase`) is `Ctx.baseMeth m`, a parameter like `Ctx.meths`: what the base class's method
       does to the object and returns (the translator checks the single base class and where it is imported from).
 -/
@@ -497,6 +499,10 @@ def callMethod (x : Val) (m : String) (args : List Val) : Except PyErr Val :=
        | [.py k] => if hashable k then .ok (.py ((dGet kvs k).getD .none)) else .error (unsupported "dict key")
        | [.py k, .py d] => if hashable k then .ok (.py ((dGet kvs k).getD d)) else .error (unsupported "dict key")
        | _ => .error (unsupported "dict.get"))
+    else if m = "items" then
+      (match args with
+       | [] => .ok (.pairs kvs)
+       | _ => .error .typeError)
     else .error (unsupported ("method " ++ m))
   | .py (.ancestor u) =>
     if m = "getUid" then
@@ -571,6 +577,28 @@ def baseCall (cur : Option Field) (m : String) (args : List Val) : Except PyErr 
     match cur with
     | some (.list vs) => if m = "append" || m = "remove" then mutCall (.list vs) m args else .error (unsupported ("list." ++ m))
     | _ => .error (unsupported "not a list object")
+
+/-- `fmt % args` for a format text whose only directives are `%s` (`str()` of the argument): too few / too many arguments
+are a `TypeError`; any other directive is refused. -/
+def pyFormat : Str → List PyV → Except PyErr Str
+  | [], vs => if vs.isEmpty then .ok [] else .error .typeError
+  | c :: r, vs =>
+    if c = '%' then
+      (match r with
+       | d :: r' =>
+         if d = 's' then
+           (match vs with
+            | v :: vs' => (match pyFormat r' vs' with | .ok t => .ok (tostr v ++ t) | .error e => .error e)
+            | [] => .error .typeError)
+         else .error (unsupported "format directive other than %s")
+       | [] => .error .valueError)
+    else (match pyFormat r vs with | .ok t => .ok (c :: t) | .error e => .error e)
+
+/-- the arguments of a format: model values only -/
+def pyVals : List Val → Option (List PyV)
+  | [] => some []
+  | .py v :: r => (match pyVals r with | some vs => some (v :: vs) | none => none)
+  | _ :: _ => none
 
 inductive BinOp where
   | add | sub | mul
@@ -748,6 +776,7 @@ inductive Expr where
   | outside (what : String)                             -- a call the interpreter does not model: evaluates to an error
   | elemAttr (e : Expr) (a : String)                    -- e.a, e an item of a list of elements (`l[i].a`): `Ctx.elemAttr`
   | compFor (x : String) (elt it : Expr)                -- [elt for x in it]
+  | format (fmt : Str) (args : List Expr)               -- 'fmt' % (args), 'fmt' % arg: the format text is a literal
   deriving Repr, Inhabited
 
 /-- Does the expression CREATE the list it evaluates to (so that no other name reaches the same object)? -/
@@ -795,7 +824,7 @@ inductive Stmt where
   | setItemRef (x : String) (k v : Expr)                -- x[k] = v, x such a second name (of a dict)
   | delItemRef (x : String) (k : Expr)                  -- del x[k], x such a second name (of a dict)
   | refCall (x m : String) (args : List Expr)           -- x.m(args) as a statement, x such a second name (of a list: `pop`, …)
-  | forPair (a b : String) (it : Expr) (body : List Stmt)   -- for (a, b) in it: …, `it` a variable holding a list of 2-tuples
+  | forPair (a b : String) (it : Expr) (body : List Stmt)   -- for (a, b) in it: …, `it` giving a list of 2-tuples
   | retBase (o m : String) (args : List Expr)           -- return Base.m(o, args): the method `m` of the base class (`Ctx.baseMeth`)
 inductive Handler where
   | mk (type : Option String) (body : List Stmt)        -- `except:` (none) / `except T:` (some T)
@@ -1113,6 +1142,13 @@ def eval (cx : Ctx) (env : Env) : Expr → Except PyErr Val
         | .ok rs => .ok (.list rs)
         | .error err => .error err)
      | .ok _ => .error (unsupported "comprehension over something else than a list"))
+  | .format fmt args =>
+    (match evalList cx env args with
+     | .error err => .error err
+     | .ok vs =>
+       (match pyVals vs with
+        | some ps => (match pyFormat fmt ps with | .ok t => .ok (.py (.str t)) | .error err => .error err)
+        | none => .error (unsupported "format of an object")))
 def evalList (cx : Ctx) (env : Env) : List Expr → Except PyErr (List Val)
   | [] => .ok []
   | e :: es =>
@@ -1303,11 +1339,9 @@ def execS (cx : Ctx) (env : Env) : Stmt → Env × Res
     (match eval cx env it with
      | .error err => (env, .exc err)
      | .ok (.pairs kvs) =>
-       if it.isVar then
-         forLoop (fun env v => match v with | .tuple [x, y] => assocSet (assocSet env a (.py x)) b (.py y) | _ => env)
-           (fun env => execL cx env body) (fun env' => decide (eval cx env' it = .ok (.pairs kvs)))
-           (kvs.map (fun p => .tuple [p.1, p.2])) env
-       else (env, .exc (unsupported "iteration over something else than a variable"))
+       forLoop (fun env v => match v with | .tuple [x, y] => assocSet (assocSet env a (.py x)) b (.py y) | _ => env)
+         (fun env => execL cx env body) (fun env' => decide (eval cx env' it = .ok (.pairs kvs)))
+         (kvs.map (fun p => .tuple [p.1, p.2])) env
      | .ok _ => (env, .exc (unsupported "unpacking iteration over something else than a list of pairs")))
   | .retBase o m args =>
     (match evalList cx env args with
